@@ -802,6 +802,55 @@ impl Sim {
             self.model.s = model_s.clone();
             self.model.oob_restore(&model_oob);
         }
+        // module-call fault sweep: the same tree once per module call it makes (bank transfers incl.
+        // attached funds and staking's internal sends, staking, distribution, custom, ibc, gov,
+        // stargate, any, module queries), that call rejected by the shim
+        let counts_before = self.world.0.borrow().call_counts.clone();
+        if !self.exec_multi(sender, std::slice::from_ref(msg), false) {
+            for v in self.viol.iter_mut() {
+                v.detail = format!("[sweep, fault-free probe run] {}", v.detail);
+            }
+            return;
+        }
+        let calls: Vec<String> = self.model.module_calls.iter().map(|c| c.kind.clone()).collect();
+        let restore = |sim: &mut Sim| {
+            sim.app.storage_mut().restore(&root_snap);
+            sim.world.restore(&world_snap);
+            sim.world.0.borrow_mut().faults_fired = faults_fired.clone();
+            sim.model.s = model_s.clone();
+            sim.model.oob_restore(&model_oob);
+        };
+        restore(self);
+        let mut seen: BTreeMap<String, u32> = BTreeMap::new();
+        for kind in calls.iter().take(14) {
+            let j = {
+                let c = seen.entry(kind.clone()).or_insert(0);
+                let j = *c;
+                *c += 1;
+                j
+            };
+            if kind == "bank.sudo" {
+                continue;
+            }
+            let key = (kind.clone(), counts_before.get(kind).copied().unwrap_or(0) + j);
+            let fresh_w = self.world.0.borrow_mut().fault_plan.insert(key.clone());
+            let fresh_m = self.model.fault_plan.insert(key.clone());
+            self.stats.fault("sweep_module_call_site");
+            let ok = self.exec_multi(sender, std::slice::from_ref(msg), false);
+            if fresh_w {
+                self.world.0.borrow_mut().fault_plan.remove(&key);
+            }
+            if fresh_m {
+                self.model.fault_plan.remove(&key);
+            }
+            if !ok {
+                for v in self.viol.iter_mut() {
+                    v.detail = format!("[module-call fault sweep, {} call #{} of the tree rejected] {}", key.0, j, v.detail);
+                }
+                return;
+            }
+            restore(self);
+        }
     }
 
     fn op_wasm_sudo(&mut self, target: &Target, node: &Node, via_router: bool) -> bool {
